@@ -140,6 +140,7 @@ type world struct {
 	overlaps   []string  // diagnoses: which request waited for which reply
 	stuck      []string  // nested requests that never finished
 	stackBuf   []byte
+	stopsSinceBarrier int // clusters stopped since the last clean-up barrier
 	extraAttrs []Attrs  // attributes the chain built that are not in the case
 	extraKeys  []string // their spec keys
 
@@ -604,10 +605,13 @@ func (w *world) doEv(e *Ev) {
 	case "del":
 		w.mgr.Delete(rig.UnHex(e.Key))
 	case "delStop":
+		w.stopsSinceBarrier++
 		w.mgr.DeleteWithStop(rig.UnHex(e.Key))
 	case "delAll":
+		w.stopsSinceBarrier++
 		w.mgr.DeleteAll()
 	case "stop":
+		w.stopsSinceBarrier++
 		w.inst(e.Inst).info.Stop()
 	case "ep":
 		i := w.inst(e.Inst)
@@ -763,6 +767,7 @@ func (w *world) waitDrops() {
 		return
 	}
 	deadline := time.Now().Add(3 * time.Second)
+	sawPending := false
 	for {
 		pending := false
 		for _, obj := range []interface{}{w.authn, w.authz} {
@@ -773,12 +778,16 @@ func (w *world) waitDrops() {
 			}
 			for _, k := range keys {
 				if k.stopped {
-					pending = true
+					pending, sawPending = true, true
 				}
 			}
 		}
 		if !pending {
-			w.cleanupsFinished()
+			// (only when a clean-up can have run since the last barrier: a cluster stopped, or a key was seen pending)
+			if sawPending || w.stopsSinceBarrier > 0 {
+				w.stopsSinceBarrier = 0
+				w.cleanupsFinished()
+			}
 			return
 		}
 		if time.Now().After(deadline) {
